@@ -225,27 +225,26 @@ Proof.
 Qed.
 
 (* ---------- RemoveAllSignatures: what holds for every document ---------- *)
+Ltac ra_cases d fm f rest g arr Hfm Hfs Harr :=
+  unfold remove_all;
+  destruct (d_form d) as [fm|] eqn:Hfm;
+  [ destruct (fm_fields fm) as [|f rest] eqn:Hfs;
+    [ | destruct (filter keep (f :: rest)) as [|g arr] eqn:Harr ] | ].
+
 Lemma visible_fields_remove_all : forall d,
   visible_fields (remove_all d) = filter keep (visible_fields d).
 Proof.
-  intros d. unfold remove_all, visible_fields.
-  destruct (d_form d) as [fm|] eqn:Hfm; simpl.
-  - destruct (fm_fields fm) as [|f rest] eqn:Hfs; simpl.
-    + rewrite Hfm. destruct (d_acro d); reflexivity.
-    + destruct (filter keep (f :: rest)) as [|g arr] eqn:Harr; simpl.
-      * destruct (d_acro d); [now rewrite Harr|reflexivity].
-      * destruct (d_acro d); [now rewrite Harr|reflexivity].
-  - rewrite Hfm. destruct (d_acro d); reflexivity.
+  intros d. unfold visible_fields at 2.
+  ra_cases d fm f rest g arr Hfm Hfs Harr; unfold visible_fields; cbn [d_acro d_form fm_fields];
+    rewrite ?Hfm; rewrite ?Hfs; rewrite ?Harr; destruct (d_acro d); try reflexivity;
+    symmetry; assumption.
 Qed.
 
 Lemma visible_sigflags_remove_all : forall d, visible_sigflags (remove_all d) = false.
 Proof.
-  intros d. unfold remove_all, visible_sigflags.
-  destruct (d_form d) as [fm|] eqn:Hfm; simpl.
-  - destruct (fm_fields fm) as [|f rest] eqn:Hfs; simpl; [reflexivity|].
-    destruct (filter keep (f :: rest)) as [|g arr]; simpl; [reflexivity|].
-    destruct (d_acro d); reflexivity.
-  - rewrite Hfm. destruct (d_acro d); reflexivity.
+  intros d.
+  ra_cases d fm f rest g arr Hfm Hfs Harr; unfold visible_sigflags; cbn [d_acro d_form fm_sigflags];
+    rewrite ?Hfm; destruct (d_acro d); try reflexivity.
 Qed.
 
 Lemma flags_remove_all : forall d,
@@ -253,20 +252,16 @@ Lemma flags_remove_all : forall d,
   d_legal (remove_all d) = false /\ d_ext (remove_all d) = false /\
   d_others (remove_all d) = d_others d.
 Proof.
-  intros d. unfold remove_all.
-  destruct (d_form d) as [fm|]; simpl; [|repeat split].
-  destruct (fm_fields fm) as [|f rest]; simpl; [repeat split|].
-  destruct (filter keep (f :: rest)); simpl; repeat split.
+  intros d.
+  ra_cases d fm f rest g arr Hfm Hfs Harr; cbn [d_perms d_dss d_legal d_ext d_others]; repeat split.
 Qed.
 
 Lemma pages_remove_all : forall d, wf_doc d ->
   d_pages (remove_all d) = apply_ops (all_ops (visible_fields d)) (d_pages d).
 Proof.
-  intros d Hwf. unfold wf_doc in Hwf. unfold remove_all, visible_fields.
-  destruct (d_form d) as [fm|] eqn:Hfm; simpl.
-  - rewrite Hwf. destruct (fm_fields fm) as [|f rest] eqn:Hfs; simpl; [reflexivity|].
-    destruct (filter keep (f :: rest)) as [|g arr] eqn:Harr; simpl; apply sweep_ops.
-  - destruct (d_acro d); reflexivity.
+  intros d Hwf. unfold wf_doc in Hwf. unfold visible_fields.
+  ra_cases d fm f rest g arr Hfm Hfs Harr; cbn [d_pages]; rewrite ?Hwf, ?Hfs; try apply sweep_ops; try reflexivity.
+  destruct (d_acro d); reflexivity.
 Qed.
 
 Lemma Forall2_map_r : forall (A B : Type) (R : A -> B -> Prop) (h : A -> B) l,
@@ -311,7 +306,7 @@ Proof.
   destruct (f_ft f) as [t|] eqn:Hft; [|discriminate].
   destruct t; simpl in Hk; try discriminate;
     (unfold no_nested_sig in Hok; apply negb_true_iff in Hok;
-     eapply nodes_no_sig; [reflexivity|exact Hok|exact Hx]).
+     exact (nodes_no_sig f None eq_refl Hok x Hx)).
 Qed.
 
 Lemma top_ok_drop : forall f, top_ok f = true -> keep f = false ->
